@@ -734,7 +734,6 @@ def generate():
     ipu = Interp(ast.parse(open(os.path.join(REPO, "exponax", "_utils.py")).read()))
     emit("make_grid", "(full zero_centered xy : bool) (D : nat) (L : K) (N : Z) (c : nat) (idx : list Z)", "K",
          ipu.call("make_grid", [D, L, N], {"full": Bool("full"), "zero_centered": Bool("zero_centered"), "indexing": xyv}), Mesh)
-    out.append(injections(ip))
     # wrap_bc (exponax/_utils.py): compared with its expected text; the padding amounts are emitted
     wb = ipu.funcs.get("wrap_bc")
     if wb is None:
@@ -750,6 +749,27 @@ def generate():
     return "\n".join(out)
 
 
+OUT_INJ = os.path.join(os.path.dirname(OUT), "InjectionGen.v")
+
+
+def generate_injection():
+    """Gen/InjectionGen.v (C12): kept apart from Gen/SpectralGen.v so that a change in the Kolmogorov constructors does not break the layout tie"""
+    tree = ast.parse(open(os.path.join(REPO, "exponax", "_spectral.py")).read())
+    head = PRELUDE.replace("from /repo/exponax/_spectral.py", "from /repo/exponax/nonlin_fun/_vorticity_convection.py, _projected_convection.py (callees of _spectral.py inlined)")
+    head = head[:head.index("(* contracts of the translator")] + head[head.index("Section Gen."):]
+    return head + "\n" + injections(Interp(tree)) + "\nEnd Gen.\n"
+
+
+def run_injection():
+    try:
+        text = generate_injection()
+    except Exception as e:
+        msg = f"{type(e).__name__}: {e}".replace("(*", "( *").replace("*)", "* )")
+        write_if_changed(OUT_INJ, "(* GENERATED by harness/translate/spectral.py -- TRANSLATION FAILED, no definitions.\n   " + msg + " *)\n")
+        raise
+    return write_if_changed(OUT_INJ, text)
+
+
 def run():
     try:
         text = generate()
@@ -762,3 +782,4 @@ def run():
 
 if __name__ == "__main__":
     print(generate())
+    print(generate_injection())
